@@ -2,7 +2,7 @@
    Property theorems only: each is closed by `exact <lemma>`. *)
 From Coq Require Import ZArith List Bool Permutation Sorted.
 From CTM Require Import Base.Sx Base.SortX Model.Tree Model.Election Model.PerCell Model.Vote
-     Proofs.ElectionP Proofs.PerCellP Proofs.SubsetP.
+     Proofs.ElectionP Proofs.PerCellP Proofs.SubsetP Model.VoteDecide Proofs.VoteDecideP.
 Import ListNotations.
 Open Scope Z_scope.
 
@@ -75,6 +75,23 @@ Theorem c06_per_cell :
       rows = map (map_one cell dc t) cells.
 Proof. exact per_cell. Qed.
 Print Assumptions c06_per_cell.
+
+(* The hypothesis "the decision for a cell is a function of that cell alone" is met by the vote at
+   bootstrap factor 1: if every call draws `iters` acceptable factor-1 subsets (any generator, any
+   state), the election run with the modelled vote (Model/VoteDecide.v) IS the per-cell recursion
+   with dc_vote, the record the vote gives the cell on all markers *)
+Theorem c06_vote_at_factor_one_is_per_cell :
+  forall (cell rng : Type) (refs_at : option (nat * node) -> list vec) (owners_at : option (nat * node) -> list Z)
+         (q_at : cell -> option (nat * node) -> vec) (draw : rng -> option (nat * node) -> list (list nat) * rng)
+         (n_assign : nat) (corr_at : cell -> option (nat * node) -> Z -> frac),
+    (forall p, refs_at p <> []) -> (1 <= n_assign)%nat ->
+    forall (n_markers : option (nat * node) -> nat) (iters : nat),
+    (forall g p, Forall (sorted_draw (n_markers p)) (fst (draw g p)) /\ length (fst (draw g p)) = iters) ->
+    forall t cells g rows g', tree_ok t ->
+      run_type_assignment cell rng (decide_vote cell rng refs_at owners_at q_at draw n_assign corr_at) t cells g = Ok (rows, g') ->
+      rows = map (map_one cell (dc_vote cell refs_at owners_at q_at n_assign corr_at n_markers iters) t) cells.
+Proof. exact vote_election_per_cell. Qed.
+Print Assumptions c06_vote_at_factor_one_is_per_cell.
 
 (* Hence a cell gets the same records in any two runs, at any positions, in any company
    and from any generator states: permuting the query, mapping a subset or a superset,
